@@ -151,6 +151,9 @@ pub enum DStep {
     Ev { k: u8 },
     /// answer the i-th oldest outstanding request (index modulo the number outstanding)
     Resp { i: usize },
+    /// a command-API timer inspected directly (no core): its answer and `clear()` on its handle both arrive
+    /// before the command is looked at again (clear first when `clear_first`); what comes out goes into the digests
+    Race { k: u8, clear_first: bool },
 }
 
 fn fnv(h: &mut u64, bytes: &[u8]) {
@@ -168,6 +171,8 @@ pub fn replay(steps: &[DStep]) -> Value {
     let mut rename: HashMap<usize, usize> = HashMap::new();
     let mut digests = vec![];
     let mut first_diff_material = vec![];
+    let mut race_digests: Vec<String> = vec![];
+    let mut race_material: Vec<String> = vec![];
     let mut handle = |bytes: Vec<u8>, outstanding: &mut Vec<(u32, DetEffectFfi)>, rename: &mut HashMap<usize, usize>| {
         let reqs: Vec<crux_core::bridge::Request<DetEffectFfi>> = opts().deserialize(&bytes).expect("decode batch");
         // rename timer ids in order of first appearance, then re-encode the batch
@@ -199,6 +204,55 @@ pub fn replay(steps: &[DStep]) -> Value {
             DStep::Ev { k } => {
                 let out = bridge.process_event(&opts().serialize(&DEv::Go(*k)).unwrap()).expect("event");
                 handle(out, &mut outstanding, &mut rename);
+            }
+            DStep::Race { k, clear_first } => {
+                use crux_time::command::{Time, TimerOutcome};
+                let (b, handle) = Time::<DetEffect, DEv>::notify_after(std::time::Duration::from_millis(100 + u64::from(*k)));
+                let mut cmd: Command<DetEffect, DEv> = b.then_send(|o| {
+                    DEv::Done(match o {
+                        TimerOutcome::Completed(_) => "completed".to_string(),
+                        TimerOutcome::Cleared => "cleared".to_string(),
+                    })
+                });
+                let mut out = vec![];
+                let mut effs: Vec<DetEffect> = cmd.effects().collect();
+                if let Some(DetEffect::Time(mut req)) = effs.pop() {
+                    let id = match &req.operation {
+                        TimeRequest::NotifyAfter { id, .. } => *id,
+                        _ => TimerId(0),
+                    };
+                    if *clear_first {
+                        handle.clear();
+                        let _ = req.resolve(TimeResponse::DurationElapsed { id });
+                    } else {
+                        let _ = req.resolve(TimeResponse::DurationElapsed { id });
+                        handle.clear();
+                    }
+                    for _ in 0..3 {
+                        for e in cmd.effects() {
+                            out.push(match e {
+                                DetEffect::Time(mut r) => {
+                                    let what = match &r.operation {
+                                        TimeRequest::Clear { .. } => "eff:clear",
+                                        _ => "eff:other",
+                                    };
+                                    let _ = r.resolve(TimeResponse::Cleared { id });
+                                    what.to_string()
+                                }
+                                _ => "eff:?".to_string(),
+                            });
+                        }
+                        for ev in cmd.events() {
+                            if let DEv::Done(s) = ev {
+                                out.push(format!("ev:{s}"));
+                            }
+                        }
+                    }
+                }
+                let mut h = 0xcbf2_9ce4_8422_2325u64;
+                fnv(&mut h, out.join(",").as_bytes());
+                race_digests.push(format!("{h:016x}"));
+                race_material.push(format!("race: {out:?}"));
             }
             DStep::Resp { i } => {
                 if outstanding.is_empty() {
@@ -237,6 +291,8 @@ pub fn replay(steps: &[DStep]) -> Value {
             }
         }
     }
+    digests.extend(race_digests);
+    first_diff_material.extend(race_material);
     let view = bridge.view().unwrap();
     let mut h = 0xcbf2_9ce4_8422_2325u64;
     fnv(&mut h, &view);
